@@ -179,20 +179,21 @@ def _annotation_names(ctx: Ctx, env):
         pass
     ctx.analysed["DJANGO_LT_4"] = lt4
     owner_kinds = env.kindflow.kinds.desc("CollectionLambda", None, "owner")
-    # callers (transitively) of the unwrapping helpers
-    callers: Dict[str, Set[str]] = {}
-    for n, fn in ci.methods.items():
-        for x in ast.walk(fn):
-            if isinstance(x, ast.Call) and isinstance(x.func, ast.Attribute) and isinstance(x.func.value, ast.Name) and x.func.value.id == "self":
-                callers.setdefault(x.func.attr, set()).add(n)
+    # private helpers that reach an unwrapping helper through an *unguarded* call
     entry = set(unwrap)
-    frontier = list(unwrap)
-    while frontier:
-        f = frontier.pop()
-        for c in callers.get(f, ()):
-            if c not in entry and c.startswith("_"):
-                entry.add(c)
-                frontier.append(c)
+    changed = True
+    while changed:
+        changed = False
+        for n, fn in ci.methods.items():
+            if n in entry or not n.startswith("_"):
+                continue
+            for x in ast.walk(fn):
+                if isinstance(x, ast.Call) and isinstance(x.func, ast.Attribute) and isinstance(x.func.value, ast.Name) \
+                        and x.func.value.id == "self" and x.func.attr in entry:
+                    if not (_guarded_by_lt4(fn, x) and lt4 is False):
+                        entry.add(n)
+                        changed = True
+                        break
     for n, fn in ci.methods.items():
         for x in ast.walk(fn):
             if not (isinstance(x, ast.Call) and isinstance(x.func, ast.Attribute) and isinstance(x.func.value, ast.Name)
